@@ -310,7 +310,17 @@ def interval_from_conditions(conds, var_text: str) -> tuple[float, float]:
     """feasible [lo, hi] of len(<var>) given (test, truth) conditions that compare it with integer constants"""
     lo, hi = 0.0, math.inf
     excluded: set[int] = set()
+    inner = var_text[4:-1] if var_text.startswith("len(") and var_text.endswith(")") else None
     for t, val in conds:
+        # truthiness of the collection itself: `if not xs` <=> len(xs) == 0, `if xs` <=> len(xs) >= 1
+        tt, neg = (t.operand, True) if isinstance(t, ast.UnaryOp) and isinstance(t.op, ast.Not) else (t, False)
+        if inner is not None and isinstance(tt, ast.Name) and tt.id == inner:
+            truthy = val != neg
+            if truthy:
+                lo = max(lo, 1)
+            else:
+                hi = min(hi, 0)
+            continue
         if not (isinstance(t, ast.Compare) and len(t.ops) == 1 and isinstance(t.left, ast.Call) and ast.unparse(t.left) == var_text and isinstance(t.comparators[0], ast.Constant) and isinstance(t.comparators[0].value, int)):
             continue
         c = t.comparators[0].value
